@@ -130,11 +130,11 @@ Definition eq_impl (a b : assets) : bool := covers a b && covers b a.
 
 (** Asset expressions after constant extraction
     (AssetExpr::expect_constant_policy / _name / _amount). *)
-Inductive acomp := ANone | ABytes (b : bytes) | AString (b : bytes) | ANumber (z : Z) | AOther.
+Inductive acomp := ANone | ABytes (b : bytes) | AString (b : bytes) | ANumber (z : Z) | AHash (b : bytes) | AOther.
 Definition asset_expr : Type := acomp * acomp * acomp.
 
 Definition expect_policy (c : acomp) : option bytes :=
-  match c with ABytes b => Some b | _ => None end.
+  match c with ABytes b | AHash b => Some b | _ => None end.   (* a policy definition lowers to a Hash *)
 Definition expect_name (c : acomp) : option bytes :=
   match c with ABytes b => Some b | AString b => Some b | _ => None end.
 
